@@ -35,7 +35,9 @@ def block_after(src, header_re):
     raise TranslateError("unbalanced braces after %r" % header_re)
 
 
-TOK = re.compile(r"\s*(?:(\d[\d_]*)(?:u64|u32|u16|u8|usize)?|([A-Za-z_][A-Za-z0-9_]*(?:::(?:<[^>]*>|[A-Za-z_][A-Za-z0-9_]*))*)|(=>|\|&|[-+*/(){},.;:|&=<>\[\]]))")
+TOK = re.compile(r"\s*(?:(\d[\d_]*)(u64|u32|u16|u8|usize)?|([A-Za-z_][A-Za-z0-9_]*(?:::(?:<[^>]*>|[A-Za-z_][A-Za-z0-9_]*))*)|(=>|\|&|[-+*/(){},.;:|&=<>\[\]]))")
+
+WIDTH = {"u8": 8, "u16": 16, "u32": 32, "u64": 64}
 
 
 def tokens(s):
@@ -46,22 +48,38 @@ def tokens(s):
         if not m or m.end() == pos:
             raise TranslateError("cannot tokenise %r" % s[pos:pos + 30])
         if m.group(1) is not None:
-            out.append(("num", int(m.group(1).replace("_", ""))))
-        elif m.group(2) is not None:
-            out.append(("id", m.group(2)))
+            out.append(("num", (int(m.group(1).replace("_", "")), m.group(2))))
+        elif m.group(3) is not None:
+            out.append(("id", m.group(3)))
         else:
-            out.append(("sym", m.group(3)))
+            out.append(("sym", m.group(4)))
         pos = m.end()
         while pos < len(s) and s[pos].isspace():
             pos += 1
     return out
 
 
-class P:
-    """recursive descent over the token list; produces a Gallina string and records free identifiers"""
+def unify(t1, t2, what):
+    """the type of `a op b`: Rust demands equal integer types; an unsuffixed literal takes the other's type"""
+    if t1 in ("lit", "any"):
+        return t2 if t2 != "any" or t1 == "any" else t1
+    if t2 in ("lit", "any"):
+        return t1
+    if t1 != t2:
+        raise TranslateError("operands of different types %s / %s in %s (the source would not compile: translator misreads it)" % (t1, t2, what))
+    return t1
 
-    def __init__(self, toks, known, local=()):
-        self.t, self.i, self.known, self.free, self.local = toks, 0, known, [], set(local)
+
+class P:
+    """Recursive descent over the token list.  Every sub-expression carries its Rust integer type, so that
+    the Gallina term places the arithmetic where the source places it: `a op b` at a type narrower than u64
+    becomes `wrap W (a op b)` (the value a release build computes; the checked build panics exactly when the
+    wrap changes the value).  u64 arithmetic is left unwrapped: `energy_formula` shows it stays below 2^64
+    for every transaction that can exist."""
+
+    def __init__(self, toks, known, local=None):
+        # known: name -> ("const",) | ("fn", [param types]);  local: name -> type
+        self.t, self.i, self.known, self.free, self.local = toks, 0, known, [], dict(local or {})
 
     def peek(self, k=0):
         return self.t[self.i + k] if self.i + k < len(self.t) else (None, None)
@@ -75,29 +93,41 @@ class P:
 
     def ident(self, name):
         name = name.split("::")[-1] if name.startswith("cost::") or name.startswith("super::") else name
-        if name in self.known or name in self.local:
-            return name
+        if name in self.local:
+            return name, self.local[name]
+        if name in self.known:
+            return name, "u64"
         if "::" in name:
             raise TranslateError("unknown path %s" % name)
         if name not in self.free:
             self.free.append(name)
-        return name
+        return name, "any"
+
+    @staticmethod
+    def binop(s1, t1, op, s2, t2):
+        t = unify(t1, t2, "%s %s %s" % (s1, op, s2))
+        s = "%s %s %s" % (s1, op, s2)
+        if t in ("u8", "u16", "u32") and op in "+*":
+            s = "(wrap %d (%s))" % (WIDTH[t], s)
+        return s, t
 
     def expr(self):
-        s = self.term()
-        while self.peek() in (("sym", "+"),):
+        s, t = self.term()
+        while self.peek() == ("sym", "+"):
             self.eat()
-            s = "%s + %s" % (s, self.term())
+            s2, t2 = self.term()
+            s, t = self.binop(s, t, "+", s2, t2)
         if self.peek() == ("sym", "-"):
             raise TranslateError("subtraction is not supported (u64 underflow semantics)")
-        return s
+        return s, t
 
     def term(self):
-        s = self.factor()
+        s, t = self.factor()
         while self.peek() in (("sym", "*"), ("sym", "/")):
             op = self.eat()
-            s = "%s %s %s" % (s, op, self.factor())
-        return s
+            s2, t2 = self.factor()
+            s, t = self.binop(s, t, op, s2, t2)
+        return s, t
 
     def args(self):
         self.eat("sym", "(")
@@ -115,52 +145,79 @@ class P:
         k, v = self.peek()
         if k == "num":
             self.eat()
-            return str(v)
+            if v[1] == "usize":
+                raise TranslateError("usize literal")
+            return str(v[0]), (v[1] or "lit")
         if (k, v) == ("sym", "("):
             self.eat()
-            s = self.expr()
+            s, t = self.expr()
             self.eat("sym", ")")
-            return "(%s)" % s
+            return "(%s)" % s, t
         if k == "id":
             self.eat()
-            if v in ("u64::from", "Energy::from", "u32::from", "u16::from", "u8::from"):
+            if v in ("u64::from", "u32::from", "u16::from", "u8::from"):
                 a = self.args()
                 if len(a) != 1:
                     raise TranslateError("from with %d args" % len(a))
-                return "(%s)" % a[0]
+                target = v.split("::")[0]
+                src = a[0][1]
+                if src in WIDTH and WIDTH[src] > WIDTH[target]:
+                    raise TranslateError("%s of a %s" % (v, src))
+                # a widening conversion: the value is unchanged, the TYPE (hence where later arithmetic wraps) changes
+                return "(%s)" % a[0][0], target
+            if v == "Energy::from":
+                a = self.args()
+                if len(a) != 1 or a[0][1] not in ("u64", "lit", "any"):
+                    raise TranslateError("Energy::from of %r" % (a,))
+                return "(%s)" % a[0][0], "u64"
             if v == "Energy" and self.peek() == ("sym", "{"):
                 self.eat()
                 self.eat("id", "energy")
                 self.eat("sym", ":")
-                s = self.expr()
+                s, t = self.expr()
+                if t not in ("u64", "lit", "any"):
+                    raise TranslateError("Energy { energy: <%s> }" % t)
                 if self.peek() == ("sym", ","):
                     self.eat()
                 self.eat("sym", "}")
-                return "(%s)" % s
+                return "(%s)" % s, "u64"
             if v == "match":
-                scrut = self.ident(self.eat("id"))
+                scrut, st = self.ident(self.eat("id"))
+                if st != "credential_type":
+                    raise TranslateError("match on a %s" % st)
                 self.eat("sym", "{")
-                arms = []
+                arms, t = [], "lit"
                 while self.peek() != ("sym", "}"):
                     pat = self.eat("id")
                     if not pat.startswith("CredentialType::"):
                         raise TranslateError("unsupported match pattern %s" % pat)
                     self.eat("sym", "=>")
-                    arms.append("| %s => %s" % (pat.split("::")[-1], self.expr()))
+                    s, t1 = self.expr()
+                    t = unify(t, t1, "match arms")
+                    arms.append("| %s => %s" % (pat.split("::")[-1], s))
                     if self.peek() == ("sym", ","):
                         self.eat()
                 self.eat("sym", "}")
-                return "(match %s with %s end)" % (scrut, " ".join(arms))
+                return "(match %s with %s end)" % (scrut, " ".join(arms)), t
             if v.startswith("CredentialType::"):
-                return v.split("::")[-1]
+                return v.split("::")[-1], "credential_type"
             if self.peek() == ("sym", "("):
-                name = self.ident(v)
-                if name not in self.known:
+                name = v.split("::")[-1] if v.startswith("cost::") or v.startswith("super::") else v
+                if name not in self.known or self.known[name][0] != "fn":
                     raise TranslateError("call of unknown function %s" % v)
                 a = self.args()
-                return "(%s %s)" % (name, " ".join("(%s)" % x if " " in x and not x.startswith("(") else x for x in a))
+                ptypes = self.known[name][1]
+                if len(a) != len(ptypes):
+                    raise TranslateError("%s called with %d arguments" % (name, len(a)))
+                for (sa, ta), pt in zip(a, ptypes):
+                    if ta not in (pt, "lit", "any"):
+                        raise TranslateError("argument of type %s for parameter of type %s in call of %s" % (ta, pt, name))
+                return "(%s %s)" % (name, " ".join("(%s)" % x if " " in x and not x.startswith("(") else x for x, _ in a)), "u64"
             if self.peek() == ("sym", "."):
                 # xs.iter().map(|&v| e).sum::<u64>()
+                lst, lt = self.ident(v)
+                if not lt.startswith("list "):
+                    raise TranslateError(".iter() on a %s" % lt)
                 self.eat()
                 self.eat("id", "iter")
                 self.eat("sym", "(")
@@ -176,17 +233,17 @@ class P:
                         self.eat()
                 var = self.eat("id")
                 self.eat("sym", "|")
-                self.local.add(var)
-                body = self.expr()
-                self.local.discard(var)
+                self.local[var] = lt[5:]
+                body, bt = self.expr()
+                del self.local[var]
                 self.eat("sym", ")")
                 self.eat("sym", ".")
-                s = self.eat("id")
-                if not s.startswith("sum"):
-                    raise TranslateError("expected .sum after .map, got %s" % s)
+                sm = self.eat("id")
+                if sm != "sum::<u64>" or bt not in ("u64", "lit"):
+                    raise TranslateError("expected .sum::<u64>() of u64 items, got %s of %s" % (sm, bt))
                 self.eat("sym", "(")
                 self.eat("sym", ")")
-                return "(fold_right N.add 0 (map (fun %s => %s) %s))" % (var, body, self.ident(v))
+                return "(fold_right N.add 0 (map (fun %s => %s) %s))" % (var, body, lst), "u64"
             return self.ident(v)
         raise TranslateError("unexpected token %s %s" % (k, v))
 
@@ -195,43 +252,60 @@ class P:
             raise TranslateError("trailing tokens %r" % (self.t[self.i:self.i + 5],))
 
 
-def parse_body(body, known, params):
-    """`let x: T = e; tail` | `e`"""
+def parse_body(body, known, params, want="u64"):
+    """`let x: T = e; tail` | `e`   (params: name -> type)"""
     body = body.strip()
     lets = []
     while True:
-        m = re.match(r"let\s+([a-z_][a-z0-9_]*)\s*(?::\s*[A-Za-z0-9_]+)?\s*=", body)
+        m = re.match(r"let\s+([a-z_][a-z0-9_]*)\s*(?::\s*([A-Za-z0-9_]+))?\s*=", body)
         if not m:
             break
-        # find the terminating ';' at depth 0
         depth, j = 0, m.end()
         while j < len(body):
-            c = body[j]
-            if c in "({[":
+            ch = body[j]
+            if ch in "({[":
                 depth += 1
-            elif c in ")}]":
+            elif ch in ")}]":
                 depth -= 1
-            elif c == ";" and depth == 0:
+            elif ch == ";" and depth == 0:
                 break
             j += 1
-        lets.append((m.group(1), body[m.end():j]))
+        lets.append((m.group(1), m.group(2), body[m.end():j]))
         body = body[j + 1:].strip()
-    local = list(params)
+    local = dict(params)
     out = ""
-    for name, e in lets:
+    for name, annot, e in lets:
         p = P(tokens(e), known, local)
-        s = p.expr()
+        s, t = p.expr()
         p.done()
         if p.free:
             raise TranslateError("free identifiers %s in let %s" % (p.free, name))
+        if annot and annot != "Energy" and t not in (annot, "lit"):
+            raise TranslateError("let %s: %s = <%s>" % (name, annot, t))
+        t = t if t != "lit" else (annot or "lit")
         out += "let %s := %s in " % (name, s)
-        local.append(name)
+        local[name] = "u64" if annot == "Energy" else t
     p = P(tokens(body), known, local)
-    s = p.expr()
+    s, t = p.expr()
     p.done()
     if p.free:
         raise TranslateError("free identifiers %s" % p.free)
+    if want and t not in (want, "lit", "any"):
+        raise TranslateError("body of type %s where %s is expected" % (t, want))
     return out + s
+
+
+def rust_ty(t):
+    t = t.strip()
+    if t in WIDTH:
+        return t
+    if t == "Energy":
+        return "u64"
+    if t == "CredentialType":
+        return "credential_type"
+    if t == "&[u16]":
+        return "list u16"
+    raise TranslateError("unsupported parameter type %s" % t)
 
 
 def ty(t):
@@ -256,7 +330,7 @@ def translate(rs_text):
         params = []
         for p in [x for x in m.group(2).split(",") if x.strip()]:
             n, t = p.split(":")
-            params.append((n.strip(), ty(t)))
+            params.append((n.strip(), rust_ty(t)))
         items[m.group(1)] = ("fn", params, body)
     if "base_cost" not in items or "A" not in items or "B" not in items:
         raise TranslateError("mod cost lacks base_cost / A / B")
@@ -286,26 +360,30 @@ def translate(rs_text):
            "   (`mod cost`, `construct::TRANSACTION_HEADER_SIZE`, `TransactionBuilder::size`, `make_transaction`,",
            "   and the energy expression of each `construct::*` builder).  Do not edit. *)",
            "From Coq Require Import NArith List String.", "Import ListNotations.", "Local Open Scope N_scope.", "",
-           "Inductive credential_type : Set := Initial | Normal.", ""]
-    known = set()
+           "Inductive credential_type : Set := Initial | Normal.", "",
+           "(* arithmetic at a Rust integer type narrower than u64: the value a release build computes *)",
+           "Definition wrap (w x : N) : N := x mod 2 ^ w.", ""]
+    known = {}
     for n in order:
         kind, params, body = items[n]
-        g = parse_body(body, known, [p for p, _ in params])
-        ps = "".join(" (%s : %s)" % p for p in params)
+        g = parse_body(body, known, dict(params))
+        ps = "".join(" (%s : %s)" % (pn, gallina_ty(pt)) for pn, pt in params)
         out.append("Definition %s%s : N := %s." % (n, ps, g))
-        known.add(n)
+        known[n] = ("fn", [pt for _, pt in params]) if kind == "fn" else ("const",)
     # TransactionBuilder::size
     tb = block_after(construct, r"impl TransactionBuilder\s*\{")
     size_body = block_after(tb, r"fn size\(&self\)\s*->\s*u64\s*\{")
     size_body = size_body.replace("self.header.payload_size", "payload_size")
-    out.append("Definition builder_size (payload_size : N) : N := %s." % parse_body(size_body, known, ["payload_size"]))
+    if not re.search(r"TRANSACTION_HEADER_SIZE \+ u64::from\(u32::from\(payload_size\)\)", size_body):
+        raise TranslateError("TransactionBuilder::size: unexpected shape %r" % size_body.strip())
+    out.append("Definition builder_size (payload_size : N) : N := %s." % parse_body(size_body, known, {"payload_size": "u32"}))
     # make_transaction: the `Add` arm
     mt = block_after(construct, r"pub fn make_transaction\s*\(")
     m = re.search(r"GivenEnergy::Add\s*\{\s*num_sigs\s*,\s*energy\s*\}\s*=>\s*(.+?),\s*\}\s*;", mt, flags=re.S)
     if not m:
         raise TranslateError("make_transaction: Add arm not found")
     out.append("Definition given_energy_add (size num_sigs energy : N) : N := %s." %
-               parse_body(m.group(1), known, ["size", "num_sigs", "energy"]))
+               parse_body(m.group(1), known, {"size": "u64", "num_sigs": "u32", "energy": "u64"}))
     if not re.search(r"GivenEnergy::Absolute\(energy\)\s*=>\s*energy\s*,", mt):
         raise TranslateError("make_transaction: Absolute arm not found")
     if not re.search(r"TransactionBuilder::new\(sender, nonce, expiry, payload\)", mt) or \
@@ -335,7 +413,7 @@ def translate(rs_text):
     out.append("  0.")
     out.append("Definition token_operations_energy (ops : list string) : N := %s + fold_right N.add 0 (map token_op_cost ops)."
                % mhead.group(1).split("::")[-1])
-    known.add("token_operations_energy")
+    known["token_operations_energy"] = ("fn", ["list string"])
     # builders
     builders = []
     for m in re.finditer(r"pub fn ([a-z_]+)\s*\(", construct):
